@@ -26,7 +26,7 @@ def projects():
 
     naming = [rxn(1, ["H", "e-"], ["H-"]), rxn(2, ["H+", "E"], ["H"]), rxn(3, ["He++", "e-"], ["He+"]), rxn(4, ["oH2", "pH2D+"], ["oH2D+", "pH2"]), rxn(5, ["H2*", "H"], ["H2", "H"]),
               rxn(6, ["c-C3H2", "H+"], ["l-C3H2", "H+"]), rxn(7, ["Si", "CR"], ["Si+", "e-"], 101), rxn(8, ["N2", "D+"], ["N2D+"]), rxn(9, ["CO"], ["#CO"], 200), rxn(10, ["GRAIN0", "e-"], ["GRAIN-"]), rxn(11, ["Si+", "Si+"], ["Si++++", "e-", "e-"]),
-              rxn(12, ["HCO+", "e-"], ["H", "CO"]), rxn(13, ["H", "#H"], ["H2"])]
+              rxn(12, ["HCO+", "e-"], ["H", "CO"]), rxn(13, ["H", "#H"], ["H2"]), rxn(14, ["O-", "e-"], ["O--"]), rxn(15, ["GRAIN-", "e-"], ["GRAIN--"]), rxn(16, ["O", "e-"], ["O-"])]
     out = [("naming", "net.naunet", _native_file(naming), "naunet", {}, "hh93")]
     out.append(("minimal.kida", "minimal.kida", open("/repo/tests/data/minimal.kida").read(), "kida", {}, ""))
     out.append(("primordial", "primordial.krome", open("/repo/naunet/examples/primordial/primordial.krome").read(), "krome", {"elements": "e,H,D,He", "pseudo": "Photon", "cooling": "CIC_HI,RC_HII"}, ""))
